@@ -212,6 +212,7 @@ FIT_TABLES: List[Tuple[str, str, List[Tuple[Any, ...]], Dict[str, Any], Optional
     ("serials above 99999 in a table of short chain ids", "basic", [("A", 1, None), ("A", 2, None), ("B", 1, None)], {"first_id": 99999}, None),
     ("a table without the optional insertion-code column", "no-icode", [("AA", 5, None), ("AA", 6, None), ("B", 5, None)], {"icode_column": False}, None),
     ("one model cut out of a larger table (row labels 100, 101, ...)", "labels", [("AA", 5, None), ("AA", 5, "A"), ("B", 7, None), ("AA", 6, None)], {}, [100, 101, 102, 103]),
+    ("a table put together from per-residue pieces: row labels neither increasing nor starting at 0 (7, 3, 12, 5, 9, 4)", "labels", [("AA", 5, None), ("AA", 5, None), ("B", 7, None), ("AA", 6, None), ("B", 7, "A"), ("AA", 6, None)], {}, [7, 3, 12, 5, 9, 4]),
     ("a two-model table handed over whole (model 2 repeats the residue identities of model 1)", "noncontiguous", [("AA", 5, None, 1), ("AA", 6, None, 1), ("AA", 5, None, 2), ("AA", 6, None, 2)], {}, None),
     ("insertion codes on every residue", "basic", [("AA", 5, "A"), ("AA", 5, "B"), ("AA", 5, "B"), ("B", 5, "A")], {}, None),
 ]
@@ -257,6 +258,7 @@ def fit_env(repo) -> Dict[str, Any]:
         names.add(n)
         todo += [astq.callee_name(c) for c in ast.walk(m.funcs[n].node) if isinstance(c, ast.Call)]
     env.update(module_callables(repo, M, names=names, outer=env))
+    env.update({k: v for k, v in module_callables(repo, M, outer=env).items() if k not in env})  # new helpers that only module-level tables mention
     return env
 
 
@@ -330,13 +332,19 @@ def check_fit_eval(chk, fi) -> Optional[Set[str]]:
             note("result", None if out.attrs.get("format") == "PDB" else f"{tag}: the fitted table is tagged format={out.attrs.get('format')!r}, not 'PDB'")
             # atoms keep their order and every other field
             moved = [f for f, srcs in FIELD_SOURCE.items() if not all(_same(cols[f][i], rows[i][srcs[0]]) for i in range(n))]
-            if moved:
-                perm = sorted(str(v) for v in cols["x"]) == sorted(str(r["Cartn_x"]) for r in rows) and "x" in moved
-                note("frame-condition", f"{tag}: " + ("the atoms do not keep their order" if perm else f"field(s) {moved[:4]} of the fitted table differ from the source rows"))
+            perm = bool(moved) and "x" in moved and sorted(str(v) for v in cols["x"]) == sorted(str(r["Cartn_x"]) for r in rows)
+            if perm:
+                order = [next((j for j, r in enumerate(rows) if _same(r["Cartn_x"], v)), None) for v in cols["x"]]
+                note("row-order", f"{tag}: the atoms come back in the order {[None if j is None else j + 1 for j in order]} of their input positions - the fitted table is a permutation of the table handed in (every field still belongs to its atom, but 'atoms keep their order' does not hold, and serials / TER records follow the new order)")
+            elif moved:
+                note("frame-condition", f"{tag}: field(s) {moved[:4]} of the fitted table differ from the source rows")
             else:
                 note("frame-condition", None)
-            old_chain = [r["auth_asym_id"] for r in rows]
-            old_res = [(r["auth_asym_id"], r["auth_seq_id"], None if isna(r.get("pdbx_PDB_ins_code")) else r.get("pdbx_PDB_ins_code")) for r in rows]
+                note("row-order", None)
+            # which input row each output row is (the same position unless the table came back permuted, reported above)
+            src_rows = [rows[j] for j in order] if perm and all(j is not None for j in order) and len(set(order)) == n else rows
+            old_chain = [r["auth_asym_id"] for r in src_rows]
+            old_res = [(r["auth_asym_id"], r["auth_seq_id"], None if isna(r.get("pdbx_PDB_ins_code")) else r.get("pdbx_PDB_ins_code")) for r in src_rows]
             new_chain = list(cols["chainID"])
             new_res = [(cols["chainID"][i], None if isna(cols["resSeq"][i]) else int(cols["resSeq"][i]), None if isna(cols["iCode"][i]) or cols["iCode"][i] == "" else cols["iCode"][i]) for i in range(n)]
             # chains: a one-to-one renaming into single characters
@@ -402,6 +410,25 @@ def check_fit_eval(chk, fi) -> Optional[Set[str]]:
                 note("fits-returns-same", None if out is df and _snapshot(df) == before else f"{tag} is not returned unchanged (a {'copy' if isinstance(out, Frame) else type(out).__name__} comes back{'' if _snapshot(df) == before else ', the input is edited'})")
             except Raised as ex:
                 note("fits-returns-same", f"{tag}: fit_to_pdb raises {ex.name}")
+        # the chain alphabet: 62 chains are renamed to 62 distinct single characters, 63 chains are refused
+        for n_chains in (62, 63):
+            df = cif_table(repo, cif_rows([(f"c{k}", 1, None) for k in range(n_chains)]))
+            call = func_callable(repo, M, fi.node, env, max_steps=120000)
+            try:
+                out = call(df)
+                ids = list(out._cols.get("chainID", [])) if isinstance(out, Frame) and out is not df else None
+                if n_chains == 63:
+                    note("chain-alphabet", f"a table of 63 chains is not refused (it comes back with chain ids {ids[:3] if ids else ids}...)")
+                elif ids is None or len(set(ids)) != 62 or any(not isinstance(x, str) or len(x) != 1 for x in ids):
+                    note("chain-alphabet", f"a table of 62 chains does not get 62 distinct one-character ids ({len(set(ids or []))} distinct)")
+                else:
+                    note("chain-alphabet", None)
+            except Raised as ex:
+                note("chain-alphabet", None if (n_chains == 63 and ex.name == "ValueError") else f"a table of {n_chains} chains: fit_to_pdb raises {ex.name}" + (" instead of ValueError" if n_chains == 63 else " although 62 chains can be named"))
+            except Unknown:
+                raise
+            except Exception as ex:
+                note("chain-alphabet", None if (n_chains == 63 and isinstance(ex, ValueError)) else f"a table of {n_chains} chains: fit_to_pdb raises {type(ex).__name__}" + (" instead of ValueError: the alphabet runs out before the size check" if n_chains == 63 else ""))
     except Unknown as ex:
         chk.ok("fit-eval", fi.where, f"fit_to_pdb is not evaluable as a whole on representative tables ({str(ex)[:90]}): the pinned-form rules decide")
         return None
@@ -411,13 +438,15 @@ def check_fit_eval(chk, fi) -> Optional[Set[str]]:
         "residue-map": "every residue (chain, number, insertion code) gets one new number 1..n of its chain, different residues get different numbers, also when its atoms are not contiguous, come in several models or carry arbitrary row labels",
         "chain-map": "chains are renamed one-to-one into single characters",
         "serial-renumber": "serials ascend from 1 in row order within the limit, leaving a number for the TER of every chain change",
-        "frame-condition": "atoms keep their order; record type, names, coordinates, occupancy, B-factor, element, charge and model are those of the source rows",
+        "frame-condition": "record type, names, coordinates, occupancy, B-factor, element, charge and model of every row are those of the source row",
+        "row-order": "atoms keep their order, whatever the row labels of the table are (default, offset, neither increasing nor starting at 0)",
         "input-untouched": "the table handed in is not changed",
         "result": "a table that needs fitting comes back as a new table tagged format='PDB'",
         "essential-columns": "the fitted table has the PDB columns the writer reads",
         "fits-returns-same": "a table that already fits (PDB rows, mmCIF rows within the limits) is returned itself, unchanged",
         "column-guard": "a table without the optional insertion-code column is fitted as well",
         "dtype-typestate": "no conversion of a categorical column fails on the representative tables",
+        "chain-alphabet": "62 chains are renamed to 62 distinct one-character ids, 63 chains are refused with ValueError",
     }
     # a rule is decided here only when at least one table reached the place where it is looked at
     decided = {r for r in texts if okc.get(r, 0) > 0} - {"dtype-typestate"}
@@ -426,11 +455,19 @@ def check_fit_eval(chk, fi) -> Optional[Set[str]]:
     with evidence(chk, *sorted(set(texts))):
         from checks.c08e import new_helpers, report_silent_exits
 
-        helpers = [g for g in new_helpers(repo, M) if g is not fi] + ([repo.func(M, "can_write_pdb")] if repo.has_func(M, "can_write_pdb") else [])
+        helpers = [g for g in new_helpers(repo, M) if g is not fi and g.node.name != "can_write_pdb"]  # the fit test has its own table classes (check_can_write_eval)
         report_silent_exits(chk, "result", [fi] + helpers, cov, "tables (nine that need fitting, three that do not)", {"continue": "rows or chains are left out of the renaming", "break": "the renaming ends early", "return": "a table is returned before the fitting is complete (or the input itself, unfitted)"})
         for rule in sorted(set(texts)):
             if rule in bad:
-                chk.violation(rule, fi.where, f"evaluated on representative tables: {bad[rule][0]}", K(fi, f"eval:{rule}"), found=bad[rule][:4])
+                key = K(fi, f"eval:{rule}")
+                if rule == "row-order":
+                    # which construct reorders: a sort of the fitted table by its index labels is finding F24 (known_findings.json)
+                    srt = [c2 for c2 in ast.walk(fi.node) if isinstance(c2, ast.Call) and isinstance(c2.func, ast.Attribute) and c2.func.attr == "sort_index"]
+                    key = "parser_v2:fit_to_pdb:sort_index" if srt else key
+                    site = fi.site(srt[0]) if srt else fi.where
+                    chk.violation(rule, site, f"evaluated on representative tables: {bad[rule][0]}" + (f" (`{norm(srt[0])[:50]}` sorts the rows by their labels)" if srt else ""), key, found=bad[rule][:4])
+                    continue
+                chk.violation(rule, fi.where, f"evaluated on representative tables: {bad[rule][0]}", key, found=bad[rule][:4])
             elif rule in ("residue-map", "frame-condition", "chain-map"):
                 for tag, *_ in FIT_TABLES:
                     chk.ok(rule, fi.where, f"evaluated ({tag}): {texts[rule]}")
@@ -482,7 +519,8 @@ def check_feasibility_eval(chk, fi) -> bool:
 
     repo = chk.repo
     c = spec("constants.json")["C10"]
-    per_limit: Dict[int, List[Tuple[str, Any, str, Any, ast.If]]] = {}
+    obs: Dict[int, Dict[str, Any]] = {}  # per refusal statement: the values of both sides on every table, and what the table has
+    n_tables = 0
     try:
         env = fit_env(repo)
         for tag, spec_rows in FEASIBILITY_TABLES:
@@ -491,44 +529,121 @@ def check_feasibility_eval(chk, fi) -> bool:
             chains: Dict[str, set] = {}
             for ch, num, ic in spec_rows:
                 chains.setdefault(ch, set()).add((num, ic))
-            want = {c["max_serial"]: len(rows) + len(chains), c["max_chains"]: len(chains), c["max_resseq"]: max(len(v) for v in chains.values())}
-            seen = refusal_quantities(repo, fi, df, env)
-            for st, left, op, right in seen:
-                if isinstance(right, int) and right in want:
-                    per_limit.setdefault(right, []).append((tag, left, op, want[right], st))
+            want = {"serial": len(rows) + len(chains), "chains": len(chains), "resseq": max(len(v) for v in chains.values())}
+            n_tables += 1
+            for st, left, op, right in refusal_quantities(repo, fi, df, env):
+                o = obs.setdefault(id(st), {"st": st, "rows": []})
+                o["rows"].append((tag, left, op, right, want))
     except Unknown as ex:
         chk.ok("feasibility-eval", fi.where, f"the refusals of fit_to_pdb are not evaluable on small tables ({str(ex)[:80]}): the pinned-form rule decides")
         return False
     except Raised as ex:
         chk.ok("feasibility-eval", fi.where, f"the feasibility part raises {ex.name} on a small table: the pinned-form rule decides")
         return False
-    names = {c["max_serial"]: "atoms + TER lines (one per chain)", c["max_chains"]: "chains", c["max_resseq"]: "residues of one chain, i.e. distinct (number, insertion code) pairs"}
-    with evidence(chk, "feasibility"):
-        for limit, what in names.items():
-            got = per_limit.get(limit, [])
-            if not got:
+    limit_of = {"serial": c["max_serial"], "chains": c["max_chains"], "resseq": c["max_resseq"]}
+    what_of = {"serial": "atoms + TER lines (one per chain)", "chains": "chains", "resseq": "residues of one chain, i.e. distinct (number, insertion code) pairs"}
+    matched: Dict[str, Dict[str, Any]] = {}
+    for o in obs.values():
+        for q in limit_of:
+            if len(o["rows"]) == n_tables and all((not isna(l)) and l == w[q] for _, l, _, _, w in o["rows"]):
+                matched.setdefault(q, o)
+    with evidence(chk, "feasibility", "limits"):
+        limits_ok = True
+        for q, limit in limit_of.items():
+            what = what_of[q]
+            o = matched.get(q)
+            if o is not None:
+                st = o["st"]
+                rights = {r for _, _, _, r, _ in o["rows"]}
+                ops = {op for _, _, op, _, _ in o["rows"]}
+                if rights != {limit}:
+                    limits_ok = False
+                    chk.violation("limits", fi.site(st), f"the number of {what} is compared with {sorted(rights, key=str)[0]}, the PDB limit is {limit}: a table beyond the limit is not refused (or one within it is)", K(fi, f"limit:{q}"), expected=limit, found=sorted(rights, key=str)[0])
+                elif ops != {"Gt"}:
+                    chk.violation("feasibility", fi.site(st), f"the refusal compares the number of {what} with {limit} by {sorted(ops)}, the limit itself must still be accepted (`>`)", K(fi, f"refusal-op:{limit}"))
+                else:
+                    chk.ok("feasibility", fi.site(st), f"evaluated on {n_tables} tables: refused when the number of {what} exceeds {limit}")
+                continue
+            # no refusal computes this quantity: is there one that compares something else with its limit?
+            cand = [o2 for o2 in obs.values() if any(r == limit for _, _, _, r, _ in o2["rows"]) and not any(o2 is m for m in matched.values())]
+            if not cand:
                 chk.violation("feasibility", fi.where, f"no refusal `<quantity> > {limit}` is evaluated before the fitting: a table with more {what.split(',')[0]} than fit is not refused with ValueError", K(fi, f"refusal:{limit}"))
                 continue
-            st = got[0][4]
-            wrong = [(tag, left, want) for tag, left, op, want, _ in got if isna(left) or left != want]
-            ops = {op for _, _, op, _, _ in got}
-            if wrong:
-                tag, left, want = wrong[0]
-                hint = ""
-                if limit == c["max_resseq"] and "insertion code" in tag and isinstance(left, (int, float)) and not isna(left) and left < want:
-                    hint = " - residues without an insertion code are not counted (a group-by over a key column with missing values drops those rows)"
-                elif limit == c["max_resseq"] and isinstance(left, (int, float)) and not isna(left) and left > want:
-                    hint = " - atoms or runs are counted, not residues"
-                chk.violation(
-                    "feasibility",
-                    fi.site(st),
-                    f"the quantity compared with {limit} is not the number of {what}: table where {tag}: it evaluates to {left}, the table has {want}{hint}; a chain with more than {limit} residues is then not refused and gets numbers above the limit" if limit == c["max_resseq"] else f"the quantity compared with {limit} is not the number of {what}: table where {tag}: it evaluates to {left}, the table has {want}",
-                    K(fi, f"refusal:{limit}"),
-                    expected=want,
-                    found=None if isna(left) else left,
-                )
-            elif ops != {"Gt"}:
-                chk.violation("feasibility", fi.site(st), f"the refusal compares the number of {what} with {limit} by {sorted(ops)}, the limit itself must still be accepted (`>`)", K(fi, f"refusal-op:{limit}"))
-            else:
-                chk.ok("feasibility", fi.site(st), f"evaluated on {len(got)} tables: refused when the number of {what} exceeds {limit}")
+            o2 = cand[0]
+            tag, left, _, _, w = next((r for r in o2["rows"] if isna(r[1]) or r[1] != r[4][q]), o2["rows"][0])
+            hint = ""
+            if q == "resseq" and "insertion code" in tag and isinstance(left, (int, float)) and not isna(left) and left < w[q]:
+                hint = " - residues without an insertion code are not counted (a group-by over a key column with missing values drops those rows)"
+            elif q == "resseq" and isinstance(left, (int, float)) and not isna(left) and left > w[q]:
+                hint = " - atoms or runs are counted, not residues"
+            tail = f"; a chain with more than {limit} residues is then not refused and gets numbers above the limit" if q == "resseq" else ""
+            chk.violation("feasibility", fi.site(o2["st"]), f"the quantity compared with {limit} is not the number of {what}: table where {tag}: it evaluates to {left}, the table has {w[q]}{hint}{tail}", K(fi, f"refusal:{limit}"), expected=w[q], found=None if isna(left) else left)
+        if limits_ok and len(matched) == 3:
+            chk.ok("limits", fi.where, f"evaluated: the refusals compare with {c['max_serial']} (serials), {c['max_chains']} (chains) and {c['max_resseq']} (residues per chain), whatever names or constants hold them")
+    return True
+
+
+# --------------------------------------------------------------------------------------------------------------------
+# round 5: the fit test evaluated on tables
+# --------------------------------------------------------------------------------------------------------------------
+def check_can_write_eval(chk, rule: str = "fit-test") -> bool:
+    """can_write_pdb interpreted on one table per class: True exactly when the *rows of the table* are within the widths of the writer's
+    fields - serial <= 99999, chain ids of one character, residue numbers <= 9999 - for mmCIF rows; PDB rows and empty tables fit; a
+    table cut out of a larger one is judged by its own rows (a category column still lists the values of the table it came from)."""
+    from sa.frame import frame_from_rows
+
+    repo = chk.repo
+    if not repo.has_func(M, "can_write_pdb"):
+        return False
+    fi = repo.func(M, "can_write_pdb")
+    c = spec("constants.json")["C10"]
+    base = [("A", 1, None), ("A", 2, "A"), ("B", 3, None)]
+    big = cif_rows([("A", 1, None), ("AA", 70000, None), ("B", 2, None), ("A", 3, None)], first_id=99998)  # ids 99998..100001, a long chain, a large number
+    cases: List[Tuple[str, Any, bool]] = []
+    try:
+        env = fit_env(repo)
+        env.update(module_callables(repo, M, outer=env))
+        cases.append(("rows within all limits", cif_table(repo, cif_rows(base)), True))
+        cases.append((f"the largest id is exactly {c['max_serial']}", cif_table(repo, cif_rows(base, first_id=c["max_serial"] - 2)), True))
+        cases.append((f"an id of {c['max_serial'] + 1}", cif_table(repo, cif_rows(base, first_id=c["max_serial"] - 1)), False))
+        cases.append((f"a residue number of exactly {c['max_resseq']}", cif_table(repo, cif_rows([("A", c["max_resseq"], None), ("A", 2, None)])), True))
+        cases.append((f"a residue number of {c['max_resseq'] + 1}", cif_table(repo, cif_rows([("A", c["max_resseq"] + 1, None), ("A", 2, None)])), False))
+        cases.append(("a two-character chain id", cif_table(repo, cif_rows([("A", 1, None), ("AB", 2, None)])), False))
+        cases.append(("negative residue numbers", cif_table(repo, cif_rows([("A", -5, None), ("A", -4, None)])), True))
+        whole = cif_table(repo, big)
+        cases.append(("a table with an id over the limit, a long chain id and a large residue number", whole, False))
+        cases.append(("rows within the limits cut out of that table (its category columns still list the values of the whole table)", whole._take([0]), True))
+        cases.append(("the same, two rows", whole._take([0, 2]), False))  # ids 99998 and 100000
+        for drop in ("id", "auth_asym_id", "auth_seq_id"):
+            t = cif_table(repo, cif_rows(base))
+            del t._cols[drop]
+            cases.append((f"an mmCIF table without the {drop} column", t, False))
+        from checks.c09e import _row
+
+        cases.append(("a PDB-format table", frame_from_rows([_row("PDB", k, 1, "A") for k in range(2)], "PDB"), True))
+        cases.append(("an empty mmCIF table", frame_from_rows([], "mmCIF"), True))
+        bad: List[str] = []
+        for tag, table, want in cases:
+            call = func_callable(repo, M, fi.node, env, max_steps=20000)
+            try:
+                got = call(table)
+            except Raised as ex:
+                bad.append(f"{tag}: raises {ex.name}")
+                continue
+            except Unknown:
+                raise
+            except Exception as ex:
+                bad.append(f"{tag}: raises {type(ex).__name__} ({str(ex)[:50]})")
+                continue
+            if bool(got) != want or not isinstance(got, bool):
+                bad.append(f"{tag}: reported as {'fitting' if got else 'not fitting'}" + (" - a table that fits is sent into the renumbering (serials, chains and residue numbers of a table that has to come back unchanged are rewritten)" if want else " - values beyond the field widths reach the writer unchanged"))
+    except Unknown as ex:
+        chk.ok("fit-test-eval", fi.where, f"can_write_pdb is not evaluable on representative tables ({str(ex)[:80]}): the reading of its paths decides")
+        return False
+    with evidence(chk, rule):
+        if bad:
+            chk.violation(rule, fi.where, "the fit test does not say 'fits' exactly when the rows of the table are within the PDB field widths: " + "; ".join(bad[:3]), K(fi, "fit-test-eval"), found=bad[:6])
+        else:
+            for what in ("serial: fits up to 99999, not beyond", "chain id: one character", "residue number: fits up to 9999 (negative numbers too), not beyond", "a missing id / chain / number column does not fit; PDB rows and empty tables do; a piece of a larger table is judged by its own rows"):
+                chk.ok(rule, fi.where, f"evaluated on {len(cases)} tables: {what}")
     return True
